@@ -257,6 +257,7 @@ class Model:
                     c.methods[name] = m_
                     self.functions[m_.qname] = m_
                     self.pulled_up[m_.qname] = g.qname
+        self._properties_to_methods(known, short)
         new_helpers = {q: f for q, f in self.functions.items() if short(q) not in known and not f.name.startswith("__")}
         self.absorbed = {}
         self.inlined_into = {}
@@ -267,6 +268,87 @@ class Model:
         self.canonicalised = [q for q, f in self.functions.items() if canonicalise(self, f)]
         for f in self.functions.values():
             self._devirtualise_locals(f)
+
+    def _properties_to_methods(self, known: set, short) -> None:
+        """A read-only `@property` the confirmed tree does not have is a parameterless helper method in disguise: reads `x.P` become
+        calls `x.P()` and the decorator is dropped, after which the helper inliner writes the getter's body where it is read.  Done
+        when the reads can be attributed: the receiver is `self` inside the property's class hierarchy, or `P` names nothing else
+        in the package (no other method / class attribute / stored instance attribute of that name)."""
+        props: dict = {}
+        for c in self.classes.values():
+            for name, f in c.methods.items():
+                if short(f.qname) in known:
+                    continue
+                decs = f.decorators
+                if "property" in decs and len(f.params) == 1:
+                    props.setdefault(name, []).append((c, f))
+        if not props:
+            return
+        # a setter / deleter makes it a stored attribute again: leave those alone
+        for m in self.modules.values():
+            for n in ast.walk(m.tree):
+                if isinstance(n, (ast.FunctionDef, ast.AsyncFunctionDef)):
+                    for d in n.decorator_list:
+                        dd = _dotted(d) or ""
+                        if dd.endswith(".setter") or dd.endswith(".deleter") or dd.endswith(".getter"):
+                            props.pop(dd.split(".")[0], None)
+        if not props:
+            return
+        stored: set = set()
+        for m in self.modules.values():
+            for n in ast.walk(m.tree):
+                if isinstance(n, ast.Attribute) and isinstance(n.ctx, (ast.Store, ast.Del)):
+                    stored.add(n.attr)
+        unique: set = set()
+        for name, defs in props.items():
+            owners = {id(c) for c, _ in defs}
+            clash = name in stored
+            for c in self.classes.values():
+                if id(c) in owners:
+                    continue
+                if name in c.methods or name in c.assigns or name in c.anns:
+                    clash = True
+            for c, _ in defs:
+                if name in c.assigns or name in c.anns:
+                    clash = True
+            if not clash:
+                unique.add(name)
+        self.properties_as_methods = sorted(props)
+
+        def hierarchy_has(c: Optional[ClassInfo], name: str) -> bool:
+            if c is None:
+                return False
+            f = self.lookup(c, name)
+            return f is not None and any(f is g for _c, g in props.get(name, []))
+
+        class T(ast.NodeTransformer):
+            def __init__(self, fn: FuncInfo) -> None:
+                self.fn = fn
+                self.s0 = fn.params[0] if fn.cls is not None and fn.params and not fn.is_staticmethod and not fn.is_classmethod else None
+                self.changed = False
+
+            def visit_Attribute(self, n: ast.Attribute):
+                self.generic_visit(n)
+                if isinstance(n.ctx, ast.Load) and n.attr in props:
+                    if n.attr in unique or (self.s0 is not None and isinstance(n.value, ast.Name) and n.value.id == self.s0
+                                            and hierarchy_has(self.fn.cls, n.attr)):
+                        self.changed = True
+                        return ast.copy_location(ast.Call(func=n, args=[], keywords=[]), n)
+                return n
+
+        for f in self.functions.values():
+            if not any(isinstance(n, ast.Attribute) and n.attr in props for n in ast.walk(f.node)):
+                continue
+            t = T(f)
+            import copy as _copy3
+            node = t.visit(_copy3.deepcopy(f.node))
+            if t.changed:
+                ast.fix_missing_locations(node)
+                f.__dict__.setdefault("raw_node", f.node)
+                f.node = node
+        for name, defs in props.items():
+            for c, f in defs:
+                f.node.decorator_list = [d for d in f.node.decorator_list if (_dotted(d) or "") != "property"]
 
     def _inline_new_helpers(self, new_helpers: dict) -> None:
         from .inline import Inliner
